@@ -15,7 +15,7 @@ pub fn property() -> Property {
     Property {
         id: "C02",
         level: "fault_enumeration",
-        rule: "For each base response (fixed list, all framings/chunk styles, <= 1.5 KiB so enumeration is complete, plus random bases with chunks > 64 KiB) inject one fault: cut (EOF) at EVERY byte offset; EVERY offset replaced by an I/O error (ConnectionReset sticky; TimedOut/WouldBlock/Interrupted one-shot, stream continues) followed by 0..4 further caller reads; EVERY single-byte corruption of every chunk-framing byte by each of 12 replacement bytes. Served as one segment, bytewise or random segments. Oracle: strict RFC 9112 reference decoder of the bytes actually served gives (certain payload prefix, complete|incomplete|malformed|gray); after EVERY read return the bytes handed out must be a prefix of that payload; the first end-of-body signal on an incomplete/malformed frame must be Err; convenience readers must return Err. The streaming text reader (caller buffers 1,2,3,4,7,4096: below, at and above its 4-byte staging threshold) and the JSON helpers json()/json_utf8() are driven as body readers too: a complete JSON text inside an incomplete frame (every cut offset of 18 JSON responses, incl. cuts inside announced trailing white space and inside the terminating chunk) must give Err, a complete frame must give the value that was sent. Non-trivial = fault lies inside the frame; distinct = hash(wire served, fault, segmentation, plan).",
+        rule: "For each base response (fixed list, all framings/chunk styles, <= 1.5 KiB so enumeration is complete, plus random bases with chunks > 64 KiB) inject one fault: cut (EOF) at EVERY byte offset; EVERY offset replaced by an I/O error (ConnectionReset sticky; TimedOut/WouldBlock/Interrupted one-shot, stream continues) followed by 0..4 further caller reads; EVERY single-byte corruption of every chunk-framing byte by each of 12 replacement bytes. Served as one segment, bytewise or random segments. A quarter of the bases announce HTTP/1.0 in the status line. Oracle: strict RFC 9112 reference decoder of the bytes actually served gives (certain payload prefix, complete|incomplete|malformed|gray); after EVERY read return the bytes handed out must be a prefix of that payload; the first end-of-body signal on an incomplete/malformed frame must be Err; convenience readers must return Err. The streaming text reader (caller buffers 1,2,3,4,7,4096: below, at and above its 4-byte staging threshold) and the JSON helpers json()/json_utf8() are driven as body readers too: a complete JSON text inside an incomplete frame (every cut offset of 18 JSON responses, incl. cuts inside announced trailing white space and inside the terminating chunk) must give Err, a complete frame must give the value that was sent. Non-trivial = fault lies inside the frame; distinct = hash(wire served, fault, segmentation, plan).",
         assumptions: &[
             "gray deviations (bare LF, blank/sign-padded sizes, trailers, stray CR, size line > 100 bytes) are executed but only judged for the prefix rule up to the deviation",
             "after an Err was returned, later reads may return Err or Ok(0); only fabricated bytes are judged there",
@@ -362,7 +362,8 @@ pub fn fixed_base(i: usize) -> Base {
     };
     let styles = respgen::random_styles(&mut rng);
     let garbage: &[u8] = if i % 3 == 0 { b"" } else { b"9\r\nGARBAGE!!\r\n0\r\n\r\n" };
-    let b = build_response("HTTP/1.1 200 OK", &[], framing, &payload, &sizes, &styles, garbage);
+    // (what counts as an incomplete frame does not depend on the version the peer announces)
+    let b = build_response(["HTTP/1.1 200 OK", "HTTP/1.0 200 OK", "HTTP/1.1 200 OK", "HTTP/1.1 200 OK"][(i / 3) % 4], &[], framing, &payload, &sizes, &styles, garbage);
     Base { framing, payload, wire: b.wire, head_len: b.head_len, frame_end: b.frame_end }
 }
 
@@ -515,7 +516,7 @@ fn random_base(rng: &mut Rng, max: usize) -> Base {
     let sizes = if framing == Framing::Chunked { respgen::random_chunking(rng, len) } else { vec![] };
     let styles = respgen::random_styles(rng);
     let garbage: &[u8] = if rng.bool() { b"" } else { b"3\r\nxyz\r\n0\r\n\r\n" };
-    let b = build_response("HTTP/1.1 200 OK", &[], framing, &payload, &sizes, &styles, garbage);
+    let b = build_response(*rng.pick(&["HTTP/1.1 200 OK", "HTTP/1.0 200 OK", "HTTP/1.1 200 OK", "HTTP/1.1 404 Not Found"]), &[], framing, &payload, &sizes, &styles, garbage);
     Base { framing, payload, wire: b.wire, head_len: b.head_len, frame_end: b.frame_end }
 }
 
